@@ -1,7 +1,7 @@
 """C09 (formatting changes layout only) and C10 (idempotent, layout-canonical)."""
 import random
 
-from . import dslprint, dsllex, gen, tools
+from . import dslparse, dslprint, dsllex, gen, tools
 from .checks_meta import base_pool, tree_diff, triage, probes
 from .dslprint import Comment, NL
 from .spec import Field, MetaEntry, Packet, Proto
@@ -81,13 +81,13 @@ def coverage_protos():
     dyn = gen.dyn
     out = []
     md = [('Common', [MetaEntry('Seq', base=num('Seq', 'u32'), doc='seq no'), MetaEntry('Alt', ref='Seq', doc='alias'),
-                      MetaEntry('Code', base=fix('Code', 4), doc='code')])]
-    p1 = Proto([Packet('RootCa', [num('MsgType', 'u16', doc='kind'),
+                      MetaEntry('Code', base=fix('Code', 4), doc='code:  two blanks\nand a second line')])]
+    p1 = Proto([Packet('RootCa', [num('MsgType', 'u16', doc='kind  of\n      message\t100% %d'),
                                   Field('len', 'BodyLen', ntype='u32', target='Body', prefixed=False, typed=True, doc='len'),
                                   Field('meta', 'Seq', entry='Seq', named=False),
                                   Field('match', 'Body', key='MsgType', pairs=[([1], 'Logon'), ([2, 3], 'Logout'), ([4, 5, 6, 7, 8, 9, 10], 'Logon')]),
                                   Field('cksum', 'Check', ntype='u32', algo='CRC32', prefixed=True, typed=True)], root=True),
-                Packet('Logon', [fix('User', 8, pad=('left', '0')), dyn('Secret', 'char[]', doc='pw'), fix('Zed', 4, zchar=True),
+                Packet('Logon', [fix('User', 8, pad=('left', '0')), dyn('Secret', 'char[]', doc=' pw \n'), fix('Zed', 4, zchar=True),
                                  num('Nums', 'i64', repeat=True), Field('ref', 'Detail', packet='Detail', named=False, repeat=True),
                                  Field('inline', 'Extra', fields=[num('Xa', 'u8'), dyn('Ya', doc='y'), Field('inline', 'Deep', fields=[num('Za', 'f32')])], repeat=True)]),
                 Packet('Logout', [Field('meta', 'Mine', entry='Code', named=True, pad=('right', 'sp')), Field('ref', 'Info', packet='Detail', named=True)]),
@@ -331,19 +331,32 @@ def c09(ctx):
     ctx.cov['pool_texts_with_comments'] = ncom
     # invalid texts
     rng = random.Random('%s/inv' % ctx.seed)
-    inv = invalid_texts(rng, valid_texts[:(15 if quick else 120)], 6)
+    inv = invalid_texts(rng, valid_texts[:(30 if quick else 200)], 10)
     ninv = 0
     for kind, x in inv:
         y, err, pan = fmt(ctx, x)
         if pan:
             fail(ctx, 'C09', None, 'invalid', None, 'formatter-panic', 'panic at %s on a %s text: %s' % (pan['site'], kind, pan['value']), {'input': x, 'kind': kind, 'panic': pan, 'extra_feats': ['invalid:' + kind]})
             continue
-        if err is None:
-            # the mutation may accidentally be valid: then the valid-text oracle applies to it instead
+        # validity is decided by the independent recognizer (dslparse, written from the grammar), never by the code under
+        # test; a text with a character no token rule matches is invalid as well
+        try:
+            is_valid = dslparse.valid(x)
+        except dslparse.Undecided:
+            is_valid = False
+        if is_valid:
+            # the mutation happens to be a sentence of the grammar: it must be accepted
             ctx.counters['mutation-still-valid'] += 1
+            ctx.evaluated(1, key=('mutated-valid', kind, len(x) % 50))
+            if err is not None:
+                fail(ctx, 'C09', None, 'invalid', None, 'valid-text-rejected', 'kind=%s: %s' % (kind, str(err)[:200]), {'input': x, 'error': str(err), 'extra_feats': ['invalid:' + kind]})
             continue
         ninv += 1
         ctx.evaluated(1, key=('invalid', kind, len(x) % 50))
+        if err is None:
+            fail(ctx, 'C09', None, 'invalid', None, 'syntax-error-not-reported', 'kind=%s: the text is not a sentence of the grammar, format reports no error and returns %d of %d characters' % (kind, len(y or ''), len(x)),
+                 {'input': x, 'output': y, 'extra_feats': ['invalid:' + kind]})
+            continue
         if y != x:
             fail(ctx, 'C09', None, 'invalid', None, 'invalid-input-not-returned-unchanged', 'kind=%s' % kind, {'input': x, 'output': y, 'extra_feats': ['invalid:' + kind]})
     ctx.cov['invalid_texts'] = ninv
